@@ -95,17 +95,7 @@ impl LeaseMon {
                 if !is_leader {
                     return;
                 }
-                // (2) a newer leader already exists
-                if let Some((tm, (n2, t2))) = self.became_leader.range((my_term + 1)..).find(|(_, (_, t2))| *t2 <= t)
-                    && *policy == "lease"
-                {
-                    self.find(
-                        t,
-                        &format!("lease-read-served-after-newer-leader-elected[{path}]"),
-                        json!({"node": node, "term": my_term, "newer_leader": n2, "newer_term": tm, "elected_at": t2, "served_at": t}),
-                    );
-                }
-                // (3) fresh quorum within the lease window (anchored at request send time)
+                // fresh quorum within the lease window (anchored at request send time)
                 let (voters, _) = view.get(node).cloned().unwrap_or_default();
                 let n_voters = voters.len().max(1);
                 let lo = t.saturating_sub(self.lease_ms);
@@ -115,6 +105,20 @@ impl LeaseMon {
                     .cloned()
                     .filter(|v| *v != *node && fresh.get(v).is_some_and(|st| *st >= lo))
                     .collect();
+                // (2) a newer leader already exists although a fresh majority backs this one: the
+                // lease window did not end before another node could win. (Without a fresh
+                // majority the serve is reported by (3) below, which names the mechanism.)
+                if let Some((tm, (n2, t2))) = self.became_leader.range((my_term + 1)..).find(|(_, (_, t2))| *t2 <= t)
+                    && *policy == "lease"
+                    && backing.len() + 1 >= maj(n_voters)
+                {
+                    self.find(
+                        t,
+                        &format!("lease-read-served-after-newer-leader-elected[{path}]"),
+                        json!({"node": node, "term": my_term, "newer_leader": n2, "newer_term": tm, "elected_at": t2, "served_at": t, "acked_within_window": backing}),
+                    );
+                }
+                // (3) no fresh quorum within the lease window
                 if *policy == "lease" {
                     self.lease_serves_checked += 1;
                 }
